@@ -101,10 +101,13 @@ CHECKS = {
         "rule": ("pools of 0..8 upstreams x 1..3 peers with generated unhealthy flags, fails vs max_fails (0..2) and connection counts vs max_connections (0..3), client "
                  "addresses v4/v6/no-port, random_choose 0..10, all six policies loaded as Caddy modules; selection sequences (|A|-windows for round_robin, 12 draws for "
                  "random policies) and rapid state-machine histories with state changes between calls; plus every availability vector of pools of 0..5 upstreams for three "
-                 "ways of being unavailable (exhaustive). Oracle: reference availability set A recomputed from the generated state. Non-trivial = pool >= 2 with a non-empty "
+                 "ways of being unavailable (exhaustive); plus pools provisioned by the proxy handler itself from generated configurations (max_connections per upstream; "
+                 "max_fails, fail_duration, unhealthy_connection_count given or left to their documented defaults) whose peer counters are then set, selected from by the "
+                 "handler's own policy instance. Oracle: reference availability set A recomputed from the generated state (and, for provisioned pools, the documented "
+                 "meaning of the configuration). Non-trivial = pool >= 2 with a non-empty "
                  "proper subset available; distinct = distinct (pool state, policy, parameters, client address)."),
         "assumptions": ["pool state is injected through an overlay export shim (VerifUpstream); the module's own available() is cross-checked against the reference predicate"],
-        "min_classes": {"quick": {"C10/policy/random_choose": 1500, "C10/policy/round_robin": 1500, "C10/multi-peer": 3000, "C10/sequence": 1500}},
+        "min_classes": {"quick": {"C10/policy/random_choose": 1500, "C10/policy/round_robin": 1500, "C10/multi-peer": 3000, "C10/sequence": 1500, "C10/provisioned": 4000, "C10/provisioned/max-fails-defaulted": 500}},
         "runs": [
             {"name": "policies", "pkg": "./c10", "run": ".", "rapid_checks": {"quick": 8000, "thorough": 400000},
              "shards": {"quick": 1, "thorough": 16}, "timeout": {"quick": 600, "thorough": 7200}},
